@@ -516,6 +516,29 @@ AREAS = [
              lists={'ConfigType::GetObjectsByType<>()': ('zones', 'zptr')}, appends={'allTargetZones.insert': 'allTargetZones'},
              fns={'zptr->GetGlobal': ('xz_global t', ['zptr'], 'bool'), 'zptr->GetParent': ('xz_parent t', ['zptr'], 'zptr')}),
     ]),
+    # ---------------------------------------------------------------------------------------- round 2: C12 replay / clean-up conditions
+    dict(area='replay', requires=['Icv.Src.XlPrelude', 'Icv.Replay.RlModel'], items=[
+        # ReplayLog: is a decoded log entry skipped (already seen by the peer, security object gone or not accessible)?
+        dict(name='replaylog_entry_skipped', func='ApiListener::ReplayLog', file='lib/remote/apilistener.cpp', props=['C12'],
+             region=(r'if\s*\(\s*pmessage->Get\("timestamp"\)\s*<=\s*peer_ts\s*\)', r'try\s*\{\s*client->SendRawMessage'), region_exit=True, outputs=[],
+             inputs=[('ts', 'Z'), ('peer_ts', 'Z'), ('has_sec', 'bool'), ('obj_found', 'bool'), ('can_access', 'bool')],
+             ret='void', rcoq='bool', dummy='false',
+             locals={'peer_ts': Zb('peer_ts')}, aliases={'pmessage': 'pmessage', 'target_zone': 'target_zone'},
+             bind={'pmessage->Get("timestamp")': Zb('ts'), 'pmessage->Get("secobj")': ('has_sec', 'ptr'),
+                   'ConfigObject::GetObject(pmessage->Get("secobj")->Get("type"),pmessage->Get("secobj")->Get("name"))': ('obj_found', 'ptr'),
+                   'target_zone->CanAccessObject(ConfigObject::GetObject(pmessage->Get("secobj")->Get("type"),pmessage->Get("secobj")->Get("name")))': Bb('can_access')}),
+        # ApiTimerHandler: does this endpoint still need the log file named ts?  (one iteration of the inner loop; need is set before the break)
+        dict(name='apitimer_file_needed_by', func='ApiListener::ApiTimerHandler', file='lib/remote/apilistener.cpp', props=['C12'],
+             region=(r'if\s*\(\s*endpoint\s*==\s*GetLocalEndpoint\(\)\s*\)\s*continue;\s*auto\s+zone', r'\}\s*if\s*\(\s*!need\s*\)'), region_exit=True, outputs=['need'],
+             inputs=[('t', 'rl_topo'), ('is_local', 'bool'), ('ep_zone', 'Z'), ('local_zone', 'Z'), ('log_duration', 'Z'), ('local_log_position', 'Z'),
+                     ('ts', 'Z'), ('now', 'Z'), ('need0', 'bool')],
+             ret='void', rcoq='bool * bool', dummy='(false, false)',
+             types={'rz': dict(coq='Z', eqb='Z.eqb')},
+             locals={'ts': Zb('ts'), 'now': Zb('now'), 'need': Bb('need0'), 'localZone': ('local_zone', 'rz')}, aliases={'endpoint': 'endpoint'},
+             bind={'endpoint==GetLocalEndpoint()': Bb('is_local'), 'endpoint->GetZone()': ('ep_zone', 'rz'),
+                   'endpoint->GetLogDuration()': Zb('log_duration'), 'endpoint->GetLocalLogPosition()': Zb('local_log_position')},
+             fns={'rz->GetParent': ('rl_zparent t', ['rz'], 'rz')}),
+    ]),
     # ---------------------------------------------------------------------------------------- C18 (tracked, outside the subset today)
     dict(area='perm', requires=['Icv.Src.XlPrelude'], items=[
         # builds Expression objects with `new`, writes through an out-parameter: not translatable; listed so that the evidence
@@ -583,7 +606,7 @@ def run(rd, emit, log, enum_values, ti_default):
     coqdir = os.path.join(os.path.dirname(HERE), 'coq')
     thms = {}
     for fn in sorted(os.listdir(coqdir)):
-        m = re.match(r'Properties_(C\d+)_src\.v$', fn)
+        m = re.match(r'Properties_(C\d+)_(?:src|xlate)\.v$', fn)
         if not m: continue
         txt = open(os.path.join(coqdir, fn)).read()
         for tm in re.finditer(r'^Theorem\s+(\w+)\s*:(.*?)^Proof\.', txt, re.S | re.M):
